@@ -24,4 +24,13 @@ thorough.append(job("c20.twice", xproc=40, secs=600, jobs=8, model=KM_L1, n=4, d
 thorough.append(job("c20.twice", xproc=40, secs=300, jobs=4, model=ENET, n=3, d=1, reps=3, qto=3000))
 thorough.append(job("c20.twice", xproc=40, secs=300, jobs=4, model=SVM, n=3, d=1, reps=3, qto=3000))
 
+# tree-specific reproducibility harnesses (hs/src/c14.rs): tied leaves, impurity bits
+try:
+    from registry.c20_tree import JOBS_C20_TREE
+    quick += JOBS_C20_TREE["quick"]
+    thorough += JOBS_C20_TREE["thorough"]
+except Exception as ex:  # noqa
+    import sys
+    print("registry: c20_tree not merged: %s" % ex, file=sys.stderr)
+
 REG = {"C20": {"quick": quick, "thorough": thorough}}
